@@ -133,6 +133,11 @@ def c12(run):
               note="PlusCal transcription of merge_partitions (two-finger sweep with carried triples, push with witness "
                    "update) satisfies obligations (a)-(e) on every ordered pair of partitions of 0..4 (0..5); the literal "
                    "reading fails only on separated pairs")
+    run.model("MC_MergeList", "MC_MergeList_full.cfg" if run.tier == "thorough" else "MC_MergeList.cfg",
+              workers=workers(run), timeout=2400,
+              note="on every triple of partitions of 0..3 (0..4): obligations (a)-(d) are satisfied by the denotational "
+                   "merge and by no other partition; the merge is associative, commutative, idempotent with the empty "
+                   "partition as neutral element, and any grouping of a list gives the n-ary common refinement")
     out, out2 = _partition_traces(run, 1 if run.tier == "thorough" else 40)
     nt = lambda r: (r.get("op") == "merge" and r["p1"] and r["p2"]) or (r.get("op") == "mergelist" and len(r["ps"]) >= 2)
     need = {"merge": lambda r: r.get("op") == "merge", "mergelist": lambda r: r.get("op") == "mergelist",
@@ -793,7 +798,7 @@ def all_u1(ids):
     models = [("MC_Chars", "MC_Chars.cfg"), ("MC_Regex", "MC_Regex.cfg"), ("MC_Literals", "MC_Literals.cfg"),
               ("MC_Strings", "MC_Strings.cfg"), ("MC_LoopRanges", "MC_LoopRanges.cfg"), ("MC_Dfa", "MC_Dfa.cfg"),
               ("MC_PartGen", "MC_PartGen.cfg"), ("MC_Builder", "MC_Builder.cfg"), ("MC_Manager", "MC_Manager.cfg"),
-              ("MC_Hopcroft", "MC_Hopcroft.cfg"), ("MC_Components", "MC_Components.cfg"), ("MC_Terms", "MC_Terms.cfg"), ("MC_Rules", "MC_Rules.cfg"), ("MC_HashCons", "MC_HashCons.cfg"), ("MC_CoverSearch", "MC_CoverSearch.cfg"), ("MC_MergeSweep", "MC_MergeSweep.cfg"), ("MC_Constructors", "MC_Constructors.cfg"), ("MC_SubLang", "MC_SubLang.cfg")]
+              ("MC_Hopcroft", "MC_Hopcroft.cfg"), ("MC_Components", "MC_Components.cfg"), ("MC_Terms", "MC_Terms.cfg"), ("MC_Rules", "MC_Rules.cfg"), ("MC_HashCons", "MC_HashCons.cfg"), ("MC_CoverSearch", "MC_CoverSearch.cfg"), ("MC_MergeSweep", "MC_MergeSweep.cfg"), ("MC_MergeList", "MC_MergeList.cfg"), ("MC_Constructors", "MC_Constructors.cfg"), ("MC_SubLang", "MC_SubLang.cfg")]
     bad = 0
     for m, c in models:
         if ids and m not in ids:
